@@ -1366,6 +1366,9 @@ class Atoms:
 
     def __getitem__(self, i):
         idx = np.array(i, ndmin=1)
+        if idx.size == 0:
+            # an empty selection ([] or ()) is an array of floats for numpy; as an index it selects no atoms
+            idx = idx.astype(int)
         return Atoms(positions=np.take(self.positions, idx, axis=0),
                      atom_types=np.take(self.atom_types, idx, axis=0),
                      charges=np.take(self.charges, idx, axis=0),
